@@ -354,6 +354,29 @@ def run(F, rep, tier):
             rep.ok('R9.5', 'builtin %s' % nm, 'retain on a, membership test in b')
         else:
             rep.viol('R9.5', 'builtin|%s|bias' % nm, '%s filters the operand from parameter(s) %s instead of the left one' % (nm, sorted(recv)), ret[0].loc())
+    # the result of every binary dict operator is the LEFT dict (its map and its default), whatever the sharing state of the operands
+    for nm in ('||', '||+', '||-', '||++', '&&', '--'):
+        try:
+            bp = reg.body_of(nm)
+        except CheckError as e:
+            rep.error('R9.5', str(e))
+            continue
+        b = F.body(bp)
+        dicts = [(bb, s_) for bb, s_ in b.aggregates() if s_[2][2] == 'core::Seq' and s_[2][4] == 'Dict']
+        if not dicts:
+            rep.error('R9.5', 'builtin %s builds no Seq::Dict result' % nm)
+            continue
+        bad = []
+        for bb, s_ in dicts:
+            for fi, x in enumerate(s_[2][5]):
+                og = origins(b, x, passthru=('make_mut', 'deref', 'clone'))
+                sides = {(o[5] if len(o) > 5 else '?') for o in og if o[0] == 'payload'} | {o[1] for o in og if o[0] == 'param'}
+                if sides and not sides <= {'f0', 'a', '_2'}:
+                    bad.append((bb, ('map', 'default')[fi] if fi < 2 else str(fi), sorted(sides)))
+        if bad:
+            rep.viol('R9.5', 'builtin|%s|result-side' % nm, 'the result of %s takes its %s from the right operand on some path (%s): which dict\'s default (and map) survives then depends on a run-time condition such as whether the left dict is shared' % (nm, bad[0][1], bad[0][2]), b.loc(bad[0][0]))
+        else:
+            rep.ok('R9.5', 'builtin %s result' % nm, '%d Seq::Dict result(s), map and default from the left operand' % len(dicts))
     # ---------------- R9.6
     rep.rule('R9.6', 'hashing never narrows: the hash functions of keys (total_hash_of_key, ObjKey/NInt Hash impls, NNum::total_hash, '
              'consistent_hash_rational / consistent_hash_f64) contain no float->int or narrowing integer `as` cast, and NInt::hash decides '
